@@ -223,6 +223,32 @@ class Ctx(object):
             return SymBool(z3.Implies(boolterm(a), boolterm(b)))
         return (not bool(a)) or bool(b)
 
+    def resolve(self, c):
+        """True/False when the current path condition already determines c, else None (no forking)"""
+        if not self.sym:
+            return bool(c)
+        t = z3.simplify(boolterm(c))
+        if z3.is_true(t):
+            return True
+        if z3.is_false(t):
+            return False
+        r1, _ = self.eng.sat_check([t], 500)
+        if r1 == 'unsat':
+            return False
+        r2, _ = self.eng.sat_check([z3.Not(t)], 500)
+        if r2 == 'unsat':
+            return True
+        return None
+
+    def ite_resolved(self, c, a, b):
+        """ite whose condition is replaced by its value when the path already determines it"""
+        r = self.resolve(c)
+        if r is True:
+            return a
+        if r is False:
+            return b
+        return self.ite(c, a, b)
+
     def ite(self, c, a, b):
         if self.sym:
             return Sym(z3.If(boolterm(c), lift(a), lift(b)))
@@ -278,6 +304,13 @@ class Ctx(object):
         if self.sym:
             return uf_apply('sqrt', x)
         return math.sqrt(x)
+
+    def squared(self, v):
+        """(v*v, is_sqrt) for a value the code returns as a square root: in symbolic mode the ARGUMENT of the sqrt
+        application itself (the identity to prove is then rational; that sqrt was applied is visible in the term)"""
+        if self.sym and isinstance(v, Sym) and z3.is_app(v.t) and v.t.decl().name() == 'sqrt':
+            return Sym(v.t.arg(0)), True
+        return v * v, not self.sym
 
     def lemma(self, b):
         """a true fact about the uninterpreted functions, added as assumption (sym only)"""
